@@ -619,6 +619,53 @@ class Facts:
         self._reach_cache[key] = res
         return res
 
+    def can_return_err(self, bid, _stack=None):
+        """may the in-crate function `bid` (returning Result) return Err?  False only when every return
+        value is an `Ok(..)` aggregate or the result of a call that itself cannot return Err."""
+        key = ("canerr", bid)
+        if key in self._reach_cache:
+            return self._reach_cache[key]
+        _stack = _stack or set()
+        if bid in _stack:
+            return True
+        b = self.bodies[bid]
+        res = False
+        for i, j, lhs, rv, _ in b.assigns():
+            if lhs == [0] and i in b.live:
+                if rv[0] == "agg" and rv[3] and rv[3].get("adt") == "std::result::Result":
+                    if rv[3]["variant"] == "Err":
+                        res = True
+                else:
+                    res = True
+        for c in b.calls:
+            if c.dest == [0] and c.bb in b.live:
+                if any("from_residual" in t for t in c.targets):
+                    res = True
+                elif len(c.targets) == 1 and c.targets[0] in self.canon_to_id and not c.callee.get("dyn") and not c.callee.get("unres"):
+                    if self.can_return_err(self.canon_to_id[c.targets[0]], _stack | {bid}):
+                        res = True
+                else:
+                    res = True
+        self._reach_cache[key] = res
+        return res
+
+    def call_can_fail(self, c):
+        """False only if every possible callee is an in-crate function that cannot return Err"""
+        if not c.targets:
+            return True
+        for t in c.targets:
+            bid = self.canon_to_id.get(t)
+            if bid is None:
+                if t in [strip_generics(x) for xs in self.trait_impls.values() for x in xs]:
+                    continue
+                # trait method declaration itself (no body) or external function
+                if any(t == strip_generics(k) for k in self.trait_impls):
+                    continue
+                return True
+            if self.can_return_err(bid):
+                return True
+        return False
+
     def call_must_reach(self, c, pats):
         if c.names & set(pats):
             return True
